@@ -5,7 +5,7 @@
 (<base>/k/repo) and with its own copy of this tree (<base>/k/verif) whose harness is pointed at that
 worktree, pinned to its own share of the CPUs. Everything under <base> is removed at the end.
 
-usage: regress_parallel.py [--lanes N] [--tier quick|thorough] [--only SUBSTRING] [--benign] [--no-seeds]
+usage: regress_parallel.py [--lanes N] [--tier quick|thorough] [--only REGEX] [--benign] [--no-seeds]
 output (stdout), one line per (change, property):  <name> <property> CAUGHT|MISSED|ERROR <seconds>s
   seeds / mutants: the property of the change is checked; expected CAUGHT (M18a: MISSED, negative control)
   --benign: every benign patch is run through all twenty checks; expected MISSED (= no alarm) everywhere
@@ -50,7 +50,7 @@ if benign:
     for f in sorted(glob.glob(os.path.join(ROOT, "benign", "*.diff"))):
         items.append((os.path.basename(f)[:-5], f, ALL))
 if only:
-    items = [it for it in items if only in it[0]]
+    items = [it for it in items if re.search(only, it[0])]
 
 cpus = sorted(os.sched_getaffinity(0))
 lanes = max(1, min(lanes, len(cpus), len(items) or 1))
